@@ -16,7 +16,11 @@ PID = 'C07'
 RULE = ('(A) 22 database chemicals x reference phase l/g/s x phases s/l/g x T grid 260-480 K x P in {5e4,1e5,1e6}: reference values, H/S differences vs the Cn model integrals, finite differences where '
         'the model integrates consistently (conditioning probe), gas pressure term, jumps at Tb/Tm; (B) synthetic chemicals: database chemical with random constant/linear/quadratic Cn per phase (exact integrals '
         'supplied) and random Tm, Tb with Tm<T_ref<Tb, Tm<Tb<T_ref, T_ref<Tm<Tb; (C) random mixtures of 2-6 chemicals: H, Cn mole-weighted and extensive, S - sum n_i s_i = c*sum n_i ln x_i, '
-        'isothermal-isobaric mixing of two streams. non-trivial = a clause evaluated at a state away from the reference state / a mixture with >=2 components; distinct = hash of the case')
+        'isothermal-isobaric mixing of two streams. Added: (D) phase-locked chemicals (at_state / phase= constructor) for every lock phase: reference state, integral wiring, finite differences, gas pressure term, '
+        'equality with the unlocked chemical of the same reference phase, and a mixture with a solid-locked member; (E) phase_ref setter cycles and Chemical.copy re-checked with all pure-component clauses; '
+        'synthetic orders Tb<Tm (all positions relative to T_ref) and T_ref == Tm / Tb; (F) ~370 further database chemicals (Poling heat-capacity index) at T grids spanning each phase model range '
+        '(both ends) and P in 1..1e8 Pa; (G) mixtures: solid phase, gas pressure term of the mixture, single-component and equal-composition / empty / three-stream mixing, xH/xS/xCn and MultiStream.H/S/C '
+        'against the single-phase sums, Stream.H/S/C/Cn against the mole-weighted sums, include_excess_energies=True against the pure excess functors. non-trivial = a clause evaluated at a state away from the reference state / a mixture with >=2 components; distinct = hash of the case')
 MIN_NONTRIVIAL = {'quick': 300, 'thorough': 5000}
 ASSUMPTIONS = ['the symbolic clause of the quantifier (arbitrary Cn functions, arbitrary Tm/Tb/T/P) is replaced by evaluation on database and synthetic models (DESIGN section 6)',
                'database heat-capacity models whose own integral does not match their values (conditioning probe, relative error > 1e-6) are excluded from the finite-difference clauses only',
@@ -28,7 +32,9 @@ R = 8.314462618
 
 
 def required(tier):
-    return ['reference-state', 'integral-wiring', 'finite-difference', 'gas-pressure', 'jump-Tb', 'jump-Tm', 'mixture-sum', 'extensive', 'mixing-term', 'mixing-never-lowers-S', 'synthetic', 'ref:l', 'ref:g', 'ref:s']
+    return ['reference-state', 'integral-wiring', 'finite-difference', 'gas-pressure', 'jump-Tb', 'jump-Tm', 'mixture-sum', 'extensive', 'mixing-term', 'mixing-never-lowers-S', 'synthetic', 'ref:l', 'ref:g', 'ref:s',
+            'locked', 'locked:s', 'locked:l', 'locked:g', 'locked-equals-unlocked', 'mix-with-locked', 'setter-cycle', 'copy', 'order:Tb<Tm', 'order:Tref==T', 'wide-db', 'wide:T-limit-ends',
+            'multi-phase-sum', 'stream-sum', 'excess', 'mix:solid', 'mix:gas-pressure', 'mix:single-component', 'mix:equal-composition', 'mix:three-streams', 'mix:empty-stream']
 
 
 _cache = {}
@@ -71,6 +77,7 @@ def check_pure(c, rec, case, tag, synthetic=False):
         Cn = getattr(c.Cn, ph)
         lim = Cn.T_limits.get(Cn.method) if Cn.method else None
         if not Cn.method: continue
+        Ts = (case.get('Ts_by_phase') or {}).get(ph, case['Ts'])
         for T1, T2 in zip(Ts[:-1], Ts[1:]):
             P = Ps[0]
             try:
@@ -86,6 +93,16 @@ def check_pure(c, rec, case, tag, synthetic=False):
                 iH = Cn.T_dependent_property_integral(T1, T2); iS = Cn.T_dependent_property_integral_over_T(T1, T2)
             except Exception:
                 rec.refuse('model integral unavailable'); continue
+            if case.get('wide'):
+                # grids spanning a whole model range: the external model must itself integrate additively from the reference temperature
+                # (piecewise / tabulated models of the data package sometimes do not); otherwise the identity says nothing about thermosteam
+                try:
+                    aH = Cn.T_dependent_property_integral(Tref, T2) - Cn.T_dependent_property_integral(Tref, T1)
+                    aS = Cn.T_dependent_property_integral_over_T(Tref, T2) - Cn.T_dependent_property_integral_over_T(Tref, T1)
+                    if not (abs(aH - iH) <= 1e-10 * max(abs(iH), abs(Cn.T_dependent_property_integral(Tref, T2)), 1.0) and abs(aS - iS) <= 1e-10 * max(abs(iS), abs(Cn.T_dependent_property_integral_over_T(Tref, T2)), 1.0)):
+                        rec.refuse('external heat-capacity model does not integrate additively over its range: wiring clause not judged'); continue
+                except Exception:
+                    rec.refuse('model integral unavailable'); continue
             scale = max(abs(c.H(ph, T2, P)), abs(c.H(ph, T1, P)), abs(iH), 1.0)
             rec.check(abs(dH - iH) <= 1e-8 * scale, 'integral-wiring', f'H/{tag}', f'{c.ID} ref {ref} phase {ph}: H({T2})-H({T1}) = {dH!r} but integral of Cn = {iH!r}', residual=abs(dH - iH) / scale)
             sscale = max(abs(c.S(ph, T2, P)), abs(iS), 1.0)
@@ -105,6 +122,7 @@ def check_pure(c, rec, case, tag, synthetic=False):
             rec.check(abs(dSdT - cn / T) <= 1e-5 * abs(cn / T), 'finite-difference', f'dS/dT/{tag}', f'{c.ID} ref {ref} phase {ph} T={T}: dS/dT={dSdT!r} Cn/T={cn / T!r}', residual=abs(dSdT - cn / T) / abs(cn / T))
     # (d) gas entropy falls by R ln(P2/P1)
     try:
+        Ts = (case.get('Ts_by_phase') or {}).get('g', case['Ts'])
         T = Ts[len(Ts) // 2]
         for P1, P2 in zip(Ps[:-1], Ps[1:]):
             d = c.S('g', T, P2) - c.S('g', T, P1)
@@ -190,8 +208,312 @@ def run_synth(case, rec):
     except Exception as e:
         rec.exception('synthetic', e, what=f'building a synthetic chemical raised {type(e).__name__}: {str(e)[:150]}'); return
     case = dict(case); case['complete'] = {'s': True, 'l': True, 'g': True}
+    if case['Tb'] < case['Tm']: rec.hit('order:Tb<Tm')
+    if 298.15 in (case['Tb'], case['Tm']): rec.hit('order:Tref==T')
     rec.check(c.Tm == case['Tm'] and c.Tb == case['Tb'] and c.phase_ref == case['ref'], 'synthetic', 'setup', f'synthetic chemical did not take Tm/Tb/phase_ref: {c.Tm},{c.Tb},{c.phase_ref}')
     check_pure(c, rec, case, 'synthetic')
+
+
+def check_locked(k, rec, case, tag, unlocked=None):
+    """a phase-locked chemical: H, S take (T, P) and Cn takes (T); the reference state is the locked phase at (T_ref, P_ref)."""
+    ph = k.locked_state
+    rec.hit('locked'); rec.hit('locked:' + ph)
+    Tref, Pref = k.T_ref, k.P_ref
+    Cn = k.Cn
+    if not getattr(Cn, 'method', None):
+        rec.refuse('locked phase has no heat-capacity model (incomplete data)'); return
+    lim = Cn.T_limits.get(Cn.method)
+    try:
+        h0 = k.H(Tref, Pref); s0 = k.S(Tref, Pref)
+        rec.check(h0 == k.H_ref and s0 == k.S0, 'reference-state', f'locked-{ph}/{tag}', f'{k.ID} locked at {ph}: H(ref)={h0!r} (H_ref={k.H_ref}), S(ref)={s0!r} (S0={k.S0})')
+    except Exception as e:
+        rec.exception('reference-state', e, what=f'{k.ID} locked at {ph}: H/S at the reference state raised {type(e).__name__}: {str(e)[:120]}'); return
+    Ts = [T for T in case['Ts'] if lim is None or lim[0] <= T <= lim[1]]
+    P = case['Ps'][0]
+    for T1, T2 in zip(Ts[:-1], Ts[1:]):
+        try:
+            dH = k.H(T2, P) - k.H(T1, P); dS = k.S(T2, P) - k.S(T1, P)
+            iH = Cn.T_dependent_property_integral(T1, T2); iS = Cn.T_dependent_property_integral_over_T(T1, T2)
+        except Exception as e:
+            rec.exception('evaluate', e, what=f'{k.ID} locked at {ph}: H/S raised {type(e).__name__}: {str(e)[:120]} inside the range of its heat-capacity model'); break
+        scale = max(abs(k.H(T2, P)), abs(k.H(T1, P)), abs(iH), 1.0)
+        rec.check(abs(dH - iH) <= 1e-8 * scale, 'integral-wiring', f'H/locked-{ph}/{tag}', f'{k.ID} locked at {ph}: H({T2})-H({T1}) = {dH!r} but integral of Cn = {iH!r}', residual=abs(dH - iH) / scale)
+        sscale = max(abs(k.S(T2, P)), abs(iS), 1.0)
+        rec.check(abs(dS - iS) <= 1e-8 * sscale, 'integral-wiring', f'S/locked-{ph}/{tag}', f'{k.ID} locked at {ph}: S({T2})-S({T1}) = {dS!r} but integral of Cn/T = {iS!r}', residual=abs(dS - iS) / sscale)
+        rec.mark_nontrivial(case_hash((k.ID, 'locked', ph, T1, T2, tag)))
+    for T in Ts[1:-1]:
+        if not well_conditioned(Cn, T): rec.refuse('ill-conditioned database model: finite-difference clause not judged'); continue
+        try:
+            h = 1e-3; P2 = case['Ps'][-1]
+            dHdT = (k.H(T + h, P2) - k.H(T - h, P2)) / (2 * h); dSdT = (k.S(T + h, P2) - k.S(T - h, P2)) / (2 * h); cn = Cn(T)
+        except Exception:
+            continue
+        rec.check(abs(dHdT - cn) <= 1e-5 * abs(cn) + 1e-7 * abs(k.H(T, P2)) / h * 1e-9, 'finite-difference', f'dH/dT/locked-{ph}/{tag}', f'{k.ID} locked at {ph} T={T}: dH/dT={dHdT!r} Cn={cn!r}', residual=abs(dHdT - cn) / abs(cn))
+        rec.check(abs(dSdT - cn / T) <= 1e-5 * abs(cn / T), 'finite-difference', f'dS/dT/locked-{ph}/{tag}', f'{k.ID} locked at {ph} T={T}: dS/dT={dSdT!r} Cn/T={cn / T!r}', residual=abs(dSdT - cn / T) / abs(cn / T))
+    if ph == 'g' and Ts:
+        T = Ts[len(Ts) // 2]
+        try:
+            for P1, P2 in zip(case['Ps'][:-1], case['Ps'][1:]):
+                d = k.S(T, P2) - k.S(T, P1); exp = -tmo.constants.R * math.log(P2 / P1)
+                rec.check(abs(d - exp) <= 1e-10 * abs(exp) + 1e-12 * abs(k.S(T, P1)), 'gas-pressure', f'locked-g/{tag}', f'{k.ID} locked at g: S({P2})-S({P1}) = {d!r} expected -R ln(P2/P1) = {exp!r}', residual=abs(d - exp) / abs(exp))
+                dl = k.H(T, P2) - k.H(T, P1)
+                rec.check(dl == 0, 'gas-pressure', f'H-independent/locked-g/{tag}', f'{k.ID} locked at g: ideal gas enthalpy changed with pressure by {dl}')
+        except Exception as e:
+            rec.exception('gas-pressure', e, what=f'{k.ID} locked at g: gas entropy raised {type(e).__name__}: {str(e)[:100]}')
+    if unlocked is not None and unlocked.phase_ref == ph:
+        # same reference phase, same reference values: the locked functor must agree with the phase-resolved one
+        for T in Ts:
+            try:
+                # (entropy relative to each object's own S0: locking keeps the absolute entropy the chemical was loaded with)
+                a = (k.H(T, P), k.S(T, P) - k.S0, Cn(T)); b = (unlocked.H(ph, T, P), unlocked.S(ph, T, P) - unlocked.S0, unlocked.Cn(ph, T))
+            except Exception as e:
+                rec.exception('locked-equals-unlocked', e, what=f'{k.ID}: evaluating the locked / unlocked pair raised {type(e).__name__}: {str(e)[:100]}'); break
+            rec.check(all(abs(x - y) <= 1e-11 * max(abs(x), abs(y), 1.0) for x, y in zip(a, b)), 'locked-equals-unlocked', f'{ph}/{tag}',
+                      f'{k.ID} locked at {ph} (H,S-S0,Cn)(T={T}) = {a} but the unlocked chemical with phase_ref={ph} gives {b}')
+
+
+def run_lock(case, rec):
+    name, ref, ph, how = case['name'], case['ref'], case['ph'], case['how']
+    c = chemical(name, ref)
+    if isinstance(c, Exception):
+        rec.exception('construct', c, what=f'Chemical({name}, phase_ref={ref}) raised {type(c).__name__}: {str(c)[:120]}'); return
+    try:
+        if how == 'at_state-copy': k = c.at_state(ph, copy=True)
+        elif how == 'at_state':
+            k = tmo.Chemical(name, phase_ref=ref, cache=False); k.at_state(ph)
+            k.at_state(ph)                                              # locking twice at the same phase is a documented no-op
+        else: k = tmo.Chemical(name, phase=ph, cache=False)            # constructor form
+    except Exception as e:
+        rec.exception('locked', e, what=f'locking {name} (phase_ref={ref}) at {ph} via {how} raised {type(e).__name__}: {str(e)[:120]}'); return
+    rec.check(k.locked_state == ph and k.phase_ref == ph, 'locked', f'state/{how}', f'{name} locked at {ph} via {how}: locked_state={k.locked_state!r}, phase_ref={k.phase_ref!r}')
+    if how == 'at_state-copy':
+        rec.check(c.locked_state is None and c.phase_ref == ref, 'locked', 'copy-leaves-original', f'at_state(copy=True) changed the original chemical: locked_state={c.locked_state!r}, phase_ref={c.phase_ref!r}')
+    check_locked(k, rec, case, how, unlocked=chemical(name, ph) if not isinstance(chemical(name, ph), Exception) else None)
+
+
+_wide = {}
+
+
+def run_dbx(case, rec):
+    """a chemical of the bundled heat-capacity index, T grids spanning each phase model's own range (ends included), extreme pressures."""
+    key = (case['cas'], case['ref'])
+    if key not in _wide:
+        try: _wide[key] = tmo.Chemical(case['cas'], phase_ref=case['ref'], cache=False)
+        except Exception as e: _wide[key] = e
+    c = _wide[key]
+    if isinstance(c, Exception):
+        rec.refuse('database entry cannot be loaded as a chemical (incomplete data)'); return
+    rec.hit('wide-db')
+    case = dict(case); case['complete'] = completeness(c); case['wide'] = True
+    by = {}
+    for ph in 'slg':
+        Cn = getattr(c.Cn, ph)
+        lim = Cn.T_limits.get(Cn.method) if Cn.method else None
+        if not lim: continue
+        lo, hi = max(lim[0], 20.0), min(lim[1], 3000.0)
+        if not hi > lo: continue
+        by[ph] = [lo] + [round(lo + f * (hi - lo), 3) for f in sorted(case['fr'])] + [hi]
+        rec.hit('wide:T-limit-ends')
+    if 'g' not in by: case['Ts'] = case['Ts']
+    case['Ts_by_phase'] = by
+    check_pure(c, rec, case, 'database-wide')
+
+
+def run_cycle(case, rec):
+    """the reference phase changed through the setter on one object (and a copy of it): every pure-component clause again."""
+    try:
+        c = tmo.Chemical(case['name'], phase_ref=case['refs'][0], cache=False)
+    except Exception as e:
+        rec.exception('construct', e, what=f'Chemical({case["name"]}, phase_ref={case["refs"][0]}) raised {type(e).__name__}: {str(e)[:120]}'); return
+    for ref in case['refs'][1:]:
+        try:
+            c.phase_ref = ref
+        except Exception as e:
+            rec.exception('setter-cycle', e, what=f'{case["name"]}.phase_ref = {ref!r} raised {type(e).__name__}: {str(e)[:120]}'); return
+        rec.check(c.phase_ref == ref, 'setter-cycle', 'value', f'phase_ref setter: {c.phase_ref!r} after assigning {ref!r}')
+        sub = dict(case); sub['complete'] = completeness(c)
+        check_pure(c, rec, sub, 'setter')
+        fresh = chemical(case['name'], ref)
+        if not isinstance(fresh, Exception):
+            # enthalpy has the same reference value (H_ref) whatever the route to this reference phase
+            for ph in 'slg':
+                if not (sub['complete'][ph] and getattr(c.Cn, ph).method): continue
+                try:
+                    a = [c.H(ph, T, case['Ps'][0]) for T in case['Ts']]; b = [fresh.H(ph, T, case['Ps'][0]) for T in case['Ts']]
+                    ds = [c.S(ph, T, case['Ps'][0]) - fresh.S(ph, T, case['Ps'][0]) for T in case['Ts']]
+                except Exception as e:
+                    rec.exception('setter-cycle', e, what=f'{case["name"]} after phase_ref = {ref!r}: H/S in phase {ph} raised {type(e).__name__}: {str(e)[:100]}'); continue
+                rec.check(all(abs(x - y) <= 1e-11 * max(abs(x), abs(y), 1.0) for x, y in zip(a, b)), 'setter-cycle', f'H-equals-fresh/{ph}', f'{case["name"]} phase_ref set to {ref}: H({ph}) = {a} but a chemical constructed with phase_ref={ref} gives {b}')
+                # entropy differs from the freshly constructed chemical at most by the constant S0 difference
+                rec.check(all(abs(d - (c.S0 - fresh.S0)) <= 1e-10 * max(abs(c.S0), abs(fresh.S0), 1.0) for d in ds), 'setter-cycle', f'S-equals-fresh-up-to-S0/{ph}',
+                          f'{case["name"]} phase_ref set to {ref}: S({ph}) - S_fresh({ph}) = {ds}, S0 difference {c.S0 - fresh.S0}')
+        rec.hit('setter-cycle')
+    try:
+        k = c.copy(case['name'] + '_copy')
+    except Exception as e:
+        rec.exception('copy', e, what=f'{case["name"]}.copy raised {type(e).__name__}: {str(e)[:120]}'); return
+    rec.hit('copy')
+    sub = dict(case); sub['complete'] = completeness(k)
+    rec.check(k.phase_ref == c.phase_ref, 'copy', 'phase_ref', f'copy has phase_ref {k.phase_ref!r}, original {c.phase_ref!r}')
+    check_pure(k, rec, sub, 'copy')
+    for ph in 'slg':
+        if not sub['complete'][ph]: continue
+        try:
+            a = [(k.H(ph, T, 101325.), k.S(ph, T, 101325.)) for T in case['Ts']]; b = [(c.H(ph, T, 101325.), c.S(ph, T, 101325.)) for T in case['Ts']]
+        except Exception as e:
+            rec.exception('copy', e, what=f'copy of {case["name"]}: H/S raised {type(e).__name__}: {str(e)[:100]}'); continue
+        rec.check(a == b, 'copy', f'values/{ph}', f'copy of {case["name"]} (phase_ref={c.phase_ref}) gives (H,S)({ph}) = {a}, original {b}')
+
+
+_locked_pkg = {}
+
+
+def run_mixlock(case, rec):
+    """mixture with one phase-locked member (e.g. solid-locked glucose in a liquid mixture): still the mole-weighted sum of the pure values."""
+    key = (case['locked'], case['lock_phase'])
+    if key not in _locked_pkg:
+        cs = [tmo.Chemical(i, cache=False) for i in ('Water', 'Ethanol')] + [tmo.Chemical(case['locked'], phase=case['lock_phase'], cache=False)]
+        _locked_pkg[key] = tmo.Thermo(tmo.Chemicals(cs))
+    th = _locked_pkg[key]
+    mix = th.mixture; chems = list(th.chemicals)
+    n = np.array(case['n'], float); ph, T, P = case['phase'], case['T'], case['P']
+    pure = lambda c, f: (getattr(c, f)(T, P) if f != 'Cn' else c.Cn(T)) if c.locked_state else (getattr(c, f)(ph, T, P) if f != 'Cn' else c.Cn(ph, T))
+    try:
+        Hm = mix.H(ph, n, T, P); Cm = mix.Cn(ph, n, T); Sm = mix.S(ph, n, T, P)
+        Hp = sum(n[i] * pure(chems[i], 'H') for i in range(len(n)) if n[i]); Cp = sum(n[i] * pure(chems[i], 'Cn') for i in range(len(n)) if n[i])
+        Sp = sum(n[i] * pure(chems[i], 'S') for i in range(len(n)) if n[i])
+    except Exception as e:
+        rec.exception('mixture-sum', e, what=f'mixture with a {case["lock_phase"]}-locked {case["locked"]}: H/Cn/S raised {type(e).__name__}: {str(e)[:120]}'); return
+    rec.hit('mix-with-locked')
+    rec.check(abs(Hm - Hp) <= 1e-12 * max(abs(Hm), abs(Hp), 1), 'mixture-sum', 'H/locked-member', f'mixture H {Hm!r} != sum n_i H_i {Hp!r} with a locked member', residual=abs(Hm - Hp) / max(abs(Hp), 1))
+    rec.check(abs(Cm - Cp) <= 1e-12 * abs(Cp), 'mixture-sum', 'Cn/locked-member', f'mixture Cn {Cm!r} != sum n_i Cn_i {Cp!r} with a locked member', residual=abs(Cm - Cp) / abs(Cp))
+    judge_mixing_term(rec, n, Sm, Sp, case, 'locked-member')
+    # the stream of the same package
+    try:
+        a = tmo.Stream(None, phase=ph, T=T, P=P, thermo=th)
+        for i, v in zip(th.chemicals.IDs, case['n']):
+            if v: a.imol[i] = v
+        rec.check(abs(a.H - Hp) <= 1e-11 * max(abs(Hp), 1.0) and abs(a.C - Cp) <= 1e-11 * abs(Cp), 'stream-sum', 'H-C/locked-member', f'Stream.H = {a.H!r}, Stream.C = {a.C!r} but sum n_i H_i = {Hp!r}, sum n_i Cn_i = {Cp!r}')
+    except Exception as e:
+        rec.exception('stream-sum', e, what=f'stream with a locked member raised {type(e).__name__}: {str(e)[:120]}')
+    rec.mark_nontrivial(case_hash(case))
+
+
+def judge_mixing_term(rec, n, Sm, Sp, case, tag):
+    """S - sum n_i s_i = -R sum n_i ln x_i (classifying the recorded R-less, mis-signed term under its own key)."""
+    x = n[n > 0] / n.sum()
+    nlnx = float((n[n > 0] * np.log(x)).sum())
+    Rl = tmo.constants.R
+    if len(x) == 1:
+        rec.hit('mix:single-component')
+        rec.check(abs(Sm - Sp) <= 1e-12 * max(abs(Sm), abs(Sp), 1.0), 'mixing-term', f'single-component/{tag}', f'a single component has no mixing term, but mixture S = {Sm!r} and n s_i = {Sp!r}')
+        return
+    if abs(nlnx) <= 1e-6: return
+    coeff = (Sm - Sp) / nlnx
+    if abs(coeff + Rl) <= 1e-9 * Rl: rec.ok('mixing-term', abs(coeff + Rl) / Rl)
+    elif abs(coeff - 1.0) <= 1e-9:
+        rec.violation('C07/mixing-term/coefficient=+1', f'mixture S - sum n_i s_i = c * sum n_i ln x_i with c = {coeff!r}; the ideal mixing term requires c = -R = {-Rl} (the model adds +sum n_i ln x_i: no R, opposite sign)')
+    else:
+        rec.violation('C07/mixing-term/coefficient=other', f'mixture S - sum n_i s_i = c * sum n_i ln x_i with c = {coeff!r}; expected -R = {-Rl} ({tag})')
+
+
+_excess_mix = {}
+
+
+def run_mix_added(case, rec, th, mix, chems, ids, n, ph, T, P, Hm, Cm, Sm, Hp, Cp, Sp):
+    """clauses added to the mixture cases (called from run_mix after the original clauses)."""
+    Rl = tmo.constants.R
+    if ph == 's': rec.hit('mix:solid')
+    # a single component has no mixing term
+    if (n > 0).sum() == 1: judge_mixing_term(rec, n, Sm, Sp, case, 'mixture')
+    # gas entropy of the mixture falls by R sum(n) ln(P2/P1)
+    P2 = case.get('P2')
+    if ph == 'g' and P2:
+        try:
+            d = mix.S('g', n, T, P2) - Sm; exp = -Rl * n.sum() * math.log(P2 / P)
+            rec.check(abs(d - exp) <= 1e-10 * abs(exp) + 1e-12 * abs(Sm), 'gas-pressure', 'mixture', f'mixture S(g,{P2})-S(g,{P}) = {d!r} expected -R sum(n) ln(P2/P1) = {exp!r}', residual=abs(d - exp) / abs(exp))
+            rec.check(mix.H('g', n, T, P2) == Hm, 'gas-pressure', 'H-independent/mixture', 'ideal gas mixture enthalpy changed with pressure')
+            rec.hit('mix:gas-pressure')
+        except Exception as e:
+            rec.exception('gas-pressure', e, what=f'mixture gas entropy raised {type(e).__name__}: {str(e)[:100]}')
+    # multi-phase entry points are the sums of the single-phase ones
+    ph2 = case.get('phase2'); m = np.array(case['m'], float)
+    if ph2:
+        try:
+            pm = [(ph, n), (ph2, m)]
+            parts = [(mix.H(q, v, T, P), mix.S(q, v, T, P), mix.Cn(q, v, T)) for q, v in pm]
+            tot = [sum(p[j] for p in parts) for j in range(3)]
+            got = [mix.xH(pm, T, P), mix.xS(pm, T, P), mix.xCn(pm, T)]
+            for nm, g_, t_ in zip(('xH', 'xS', 'xCn'), got, tot):
+                rec.check(abs(g_ - t_) <= 1e-12 * max(abs(g_), abs(t_), 1.0), 'multi-phase-sum', nm, f'{nm} = {g_!r} but the sum of the single-phase values over {ph},{ph2} is {t_!r}')
+            ms = tmo.MultiStream(None, phases=(ph, ph2), T=T, P=P, thermo=th)
+            for q, v in pm:
+                for i, val in zip(ids, v):
+                    if val: ms.imol[q, i] = float(val)
+            gotm = [ms.H, ms.S, ms.C]
+            for nm, g_, t_ in zip(('MultiStream.H', 'MultiStream.S', 'MultiStream.C'), gotm, tot):
+                sc = max(abs(t_), max(abs(p[('MultiStream.H', 'MultiStream.S', 'MultiStream.C').index(nm)]) for p in parts), 1.0)
+                rec.check(abs(g_ - t_) <= 1e-11 * sc, 'multi-phase-sum', nm, f'{nm} = {g_!r} but the sum of the single-phase mixture values over {ph},{ph2} is {t_!r}')
+        except Exception as e:
+            rec.exception('multi-phase-sum', e, what=f'multi-phase mixture / MultiStream energies raised {type(e).__name__}: {str(e)[:120]}')
+    # Stream properties (sparse flow vectors) against the mole-weighted sums
+    try:
+        a = tmo.Stream(None, phase=ph, T=T, P=P, thermo=th)
+        for i, v in zip(ids, case['n']):
+            if v: a.imol[i] = v
+        rec.check(abs(a.H - Hp) <= 1e-11 * max(abs(Hp), abs(Hm), 1.0), 'stream-sum', 'H', f'Stream.H = {a.H!r} but sum n_i H_i = {Hp!r}')
+        rec.check(abs(a.C - Cp) <= 1e-11 * abs(Cp) and abs(a.Cn - Cp / n.sum()) <= 1e-11 * abs(Cp / n.sum()), 'stream-sum', 'C-Cn', f'Stream.C = {a.C!r}, Stream.Cn = {a.Cn!r} but sum n_i Cn_i = {Cp!r} (per mole {Cp / n.sum()!r})')
+        rec.check(abs(a.S - Sm) <= 1e-11 * max(abs(Sm), 1.0), 'stream-sum', 'S', f'Stream.S = {a.S!r} but the mixture entropy of the same flows is {Sm!r}')
+    except Exception as e:
+        rec.exception('stream-sum', e, what=f'Stream H/S/C raised {type(e).__name__}: {str(e)[:120]}')
+    # excess terms are added only when include_excess_energies is set
+    try:
+        mx = _excess_mix.get(id(th))
+        if mx is None: mx = _excess_mix[id(th)] = tmo.IdealMixture.from_chemicals(th.chemicals, include_excess_energies=True)
+        He = sum(n[i] * chems[i].H_excess(ph, T, P) for i in range(len(n)) if n[i]); Se = sum(n[i] * chems[i].S_excess(ph, T, P) for i in range(len(n)) if n[i])
+        Hx = mx.H(ph, n, T, P); Sx = mx.S(ph, n, T, P)
+        rec.check(mix.include_excess_energies is False and mx.include_excess_energies is True, 'excess', 'flag', 'include_excess_energies flags not as constructed')
+        rec.check(abs((Hx - Hm) - He) <= 1e-11 * max(abs(Hx), abs(Hm), abs(He), 1.0), 'excess', 'H', f'H(with excess) - H(without) = {Hx - Hm!r} but sum n_i H_excess_i = {He!r}')
+        rec.check(abs((Sx - Sm) - Se) <= 1e-11 * max(abs(Sx), abs(Sm), abs(Se), 1.0), 'excess', 'S', f'S(with excess) - S(without) = {Sx - Sm!r} but sum n_i S_excess_i = {Se!r}')
+    except Exception as e:
+        rec.exception('excess', e, what=f'mixture with include_excess_energies=True raised {type(e).__name__}: {str(e)[:120]}')
+
+
+def mix_streams(case, rec, th, mix, ids, ph, T, P, flows, mode):
+    """isothermal-isobaric mixing of several streams (added forms: equal compositions, an empty stream, three streams)."""
+    try:
+        ss = []
+        for fl in flows:
+            s_ = tmo.Stream(None, phase=ph, T=T, P=P, thermo=th)
+            for i, v in zip(ids, fl):
+                if v: s_.imol[i] = v
+            ss.append(s_)
+        Ss = [s_.S for s_ in ss]
+        cmb = tmo.Stream(None, phase=ph, T=T, P=P, thermo=th)
+        cmb.mix_from(ss, energy_balance=False)
+        Sc = cmb.S
+    except Exception as e:
+        rec.exception('mixing-never-lowers-S', e, what=f'stream entropies ({mode}) raised {type(e).__name__}: {e}'); return
+    rec.hit('mix:' + mode)
+    drop = sum(Ss) - Sc
+    tol = 1e-9 * max([abs(v) for v in Ss] + [abs(Sc), 1.0])
+    if mode in ('equal-composition', 'empty-stream'):
+        # no mixing entropy at all: the total is exactly conserved
+        rec.check(abs(drop) <= tol, 'mixing-never-lowers-S', f'conserved/{mode}', f'mixing streams of {"equal composition" if mode == "equal-composition" else "which one is empty"} at equal T, P changed total entropy: {sum(Ss)!r} -> {Sc!r}')
+        return
+    if drop <= tol:
+        rec.ok('mixing-never-lowers-S')
+    else:
+        arrs = [np.array(fl, float) for fl in flows]; nc = sum(arrs)
+        def t(v):
+            v = v[v > 0]; return float((v * np.log(v / v.sum())).sum()) if len(v) else 0.0
+        term = t(nc) - sum(t(v) for v in arrs)
+        ratio = drop / (-term) if term else float('inf')
+        units = Sc / mix.S(ph, nc, T, P) if mix.S(ph, nc, T, P) else 1.0
+        if abs(ratio / units - 1.0) <= 1e-6:
+            rec.violation('C07/mixing-never-lowers-S/coefficient=+1', f'mixing {len(flows)} streams at equal T and P lowered total entropy by {drop!r} = exactly the mis-signed, R-less mixing term (same mechanism as mixing-term/coefficient=+1)')
+        else:
+            rec.violation('C07/mixing-never-lowers-S/other', f'mixing {len(flows)} streams at equal T={T}, P={P} lowered total entropy: {sum(Ss)!r} -> {Sc!r}')
 
 
 def run_mix(case, rec):
@@ -215,6 +537,7 @@ def run_mix(case, rec):
         rec.check(abs(mix.S(ph, k * n, T, P) - k * Sm) <= 1e-11 * abs(k * Sm) + 1e-9, 'extensive', 'S', f'S(k n) = {mix.S(ph, k * n, T, P)!r} != k S(n) = {k * Sm!r}')
     except Exception as e:
         rec.exception('extensive', e, what=f'scaled mixture raised {type(e).__name__}: {e}')
+    run_mix_added(case, rec, th, mix, chems, ids, n, ph, T, P, Hm, Cm, Sm, Hp, Cp, Sp)
     x = n[n > 0] / n.sum()
     nlnx = float((n[n > 0] * np.log(x)).sum())
     if len(x) >= 2 and abs(nlnx) > 1e-6:
@@ -258,6 +581,12 @@ def run_mix(case, rec):
         else:
             rec.violation('C07/mixing-never-lowers-S/other', f'mixing two streams at equal T={T}, P={P} lowered total entropy: {Sa + Sb!r} -> {Sc!r}')
     rec.mark_nontrivial(case_hash((case['n'], case['m'], T, P, ph)))
+    if case.get('mk'):
+        mix_streams(case, rec, th, mix, ids, ph, T, P, [case['n'], [case['mk'] * v for v in case['n']]], 'equal-composition')
+    if case.get('m2') is not None:
+        mix_streams(case, rec, th, mix, ids, ph, T, P, [case['n'], case['m'], case['m2']], 'three-streams')
+    if case.get('empty'):
+        mix_streams(case, rec, th, mix, ids, ph, T, P, [case['n'], [0.0] * len(case['n'])], 'empty-stream')
 
 
 def gen_cases(rng, tier):
@@ -269,9 +598,14 @@ def gen_cases(rng, tier):
             cases.append({'t': 'db', 'name': name, 'ref': ref, 'Ts': [round(T, 3) for T in Ts], 'Ps': [5e4, 1e5, 1e6]})
     nsyn = 100 if tier == 'quick' else 600
     for _ in range(nsyn):
-        order = rng.choice(['Tm<Tref<Tb', 'Tm<Tb<Tref', 'Tref<Tm<Tb'])
+        order = rng.choice(['Tm<Tref<Tb', 'Tm<Tb<Tref', 'Tref<Tm<Tb', 'Tm<Tref<Tb', 'Tm<Tb<Tref', 'Tref<Tm<Tb', 'Tb<Tm<Tref', 'Tref<Tb<Tm', 'Tb<Tref<Tm', 'Tref==Tm', 'Tref==Tb'])
         if order == 'Tm<Tref<Tb': Tm, Tb = rng.uniform(150, 290), rng.uniform(310, 500)
         elif order == 'Tm<Tb<Tref': Tm, Tb = rng.uniform(100, 180), rng.uniform(190, 290)
+        elif order == 'Tb<Tm<Tref': Tb, Tm = rng.uniform(100, 180), rng.uniform(190, 290)        # sublimating: boils below its melting point
+        elif order == 'Tref<Tb<Tm': Tb, Tm = rng.uniform(305, 380), rng.uniform(390, 600)
+        elif order == 'Tb<Tref<Tm': Tb, Tm = rng.uniform(150, 290), rng.uniform(310, 500)
+        elif order == 'Tref==Tm': Tm, Tb = 298.15, rng.choice([rng.uniform(150, 290), rng.uniform(310, 500)])
+        elif order == 'Tref==Tb': Tb, Tm = 298.15, rng.choice([rng.uniform(150, 290), rng.uniform(310, 500)])
         else: Tm, Tb = rng.uniform(305, 380), rng.uniform(390, 600)
         def co():
             k = rng.choice(['const', 'lin', 'quad'])
@@ -284,14 +618,59 @@ def gen_cases(rng, tier):
         def comp(): return [0.0 if rng.random() < 0.35 else round(10 ** rng.uniform(-2, 2), 4) for _ in MIX]
         n = comp()
         if sum(1 for v in n if v) < 1: n[0] = 1.0
-        cases.append({'t': 'mix', 'n': n, 'm': comp(), 'phase': rng.choice('lg'), 'T': round(rng.uniform(280, 400), 2), 'P': rng.choice([5e4, 101325., 5e5]), 'k': rng.choice([0.5, 2.0, 1e-3, 1e3])})
+        case = {'t': 'mix', 'n': n, 'm': comp(), 'phase': rng.choice('lg'), 'T': round(rng.uniform(280, 400), 2), 'P': rng.choice([5e4, 101325., 5e5]), 'k': rng.choice([0.5, 2.0, 1e-3, 1e3])}
+        # added forms
+        if rng.random() < 0.15: case['phase'] = 's'
+        if rng.random() < 0.08:
+            case['n'] = [0.0] * len(MIX); case['n'][rng.randrange(len(MIX))] = round(10 ** rng.uniform(-2, 2), 4)          # a single component
+        case['P2'] = rng.choice([1.0, 1e3, 2e5, 1e7])
+        case['phase2'] = rng.choice([q for q in 'slg' if q != case['phase']])
+        if rng.random() < 0.3: case['m2'] = comp()
+        if rng.random() < 0.25: case['mk'] = rng.choice([1.0, 0.5, 3.0, 1e-3, 1e3])
+        if rng.random() < 0.1: case['empty'] = True
+        cases.append(case)
+    # phase-locked chemicals: every lock phase of every database chemical, through each way of locking
+    for name in names:
+        for ph in 'slg':
+            Ts = sorted(rng.uniform(260, 480) for _ in range(4))
+            cases.append({'t': 'lock', 'name': name, 'ref': rng.choice('lgs'), 'ph': ph, 'how': rng.choice(['at_state-copy', 'at_state', 'constructor']), 'Ts': [round(T, 3) for T in Ts], 'Ps': [5e4, 1e5, 1e6]})
+    for _ in range(60 if tier == 'quick' else 600):
+        n = [round(10 ** rng.uniform(-2, 2), 4) if rng.random() < 0.8 else 0.0 for _ in range(3)]
+        if not any(n): n[2] = 1.0
+        cases.append({'t': 'mixlock', 'locked': rng.choice(['Glucose', 'Glycerol', 'N2']), 'lock_phase': None, 'n': n, 'phase': rng.choice('lg'), 'T': round(rng.uniform(280, 400), 2), 'P': rng.choice([5e4, 101325., 5e5])})
+        cases[-1]['lock_phase'] = {'Glucose': 's', 'Glycerol': 'l', 'N2': 'g'}[cases[-1]['locked']]
+    # reference phase moved through the setter on one object, then copied
+    for _ in range(12 if tier == 'quick' else 120):
+        refs = [rng.choice('lgs')]
+        while len(refs) < 4:
+            r = rng.choice('lgs')
+            if r != refs[-1]: refs.append(r)
+        Ts = sorted(rng.uniform(260, 480) for _ in range(4))
+        cases.append({'t': 'cycle', 'name': rng.choice(names), 'refs': refs, 'Ts': [round(T, 3) for T in Ts], 'Ps': [5e4, 1e5, 1e6]})
+    # further chemicals of the bundled database, T over each model's whole range, extreme pressures
+    pool = wide_pool()
+    for _ in range(40 if tier == 'quick' else 400):
+        Ts = sorted(rng.uniform(260, 480) for _ in range(4))
+        cases.append({'t': 'dbx', 'cas': rng.choice(pool), 'ref': rng.choice('lgs'), 'fr': [round(rng.random(), 4) for _ in range(3)], 'Ts': [round(T, 3) for T in Ts],
+                      'Ps': sorted(round(10 ** rng.uniform(0, 8), 2) for _ in range(3))})
     return cases
+
+
+_pool = []
+
+
+def wide_pool():
+    """CAS numbers of the heat-capacity table bundled with the data package (sorted: a deterministic list)."""
+    if not _pool:
+        from chemicals import heat_capacity as hc
+        _pool.extend(sorted(str(i) for i in hc.Cp_data_Poling.index))
+    return _pool
 
 
 def run_case(case, rec):
     rec.begin_case(case)
     try:
-        {'db': run_db, 'syn': run_synth, 'mix': run_mix}[case['t']](case, rec)
+        {'db': run_db, 'syn': run_synth, 'mix': run_mix, 'lock': run_lock, 'mixlock': run_mixlock, 'cycle': run_cycle, 'dbx': run_dbx}[case['t']](case, rec)
     except Exception as e:
         rec.exception('harness', e, what=f'harness error in {case["t"]}: {type(e).__name__}: {e}')
 
